@@ -289,7 +289,10 @@ def ser(n):
         return '\\begin{' + n['name'] + '}' + n['s'] + '\\end{' + n['name'] + '}'
     if k == 'def':
         kind, v = n['inner']
-        inner = v if kind == 'text' else '\\' + kind + '{' + v + '}'
+        if kind.startswith('nested-'):
+            inner = '\\w{\\' + kind[7:] + '{' + v + '}}'
+        else:
+            inner = v if kind == 'text' else '\\' + kind + '{' + v + '}'
         return '\\' + n['cmd'] + '{\\' + n['name'] + '}' + ('[' + n['nargs'] + ']' if n['nargs'] else '') + '{' + inner + '}'
     raise AssertionError(k)
 
@@ -337,6 +340,8 @@ def exp(n):
         kind, v = n['inner']
         if kind == 'text':
             inner = merge([v])
+        elif kind.startswith('nested-'):
+            inner = (('cmd', 'w', (('brace', (('cmd', kind[7:], (('brace', merge([v])),), ()),)),), ()),)
         else:
             inner = (('cmd', kind, (('brace', merge([v])),), ()),)
         args.append(('brace', inner))
